@@ -75,7 +75,11 @@ class Gateway:
 
     @classmethod
     def from_json(cls, json_string: str):
-        return Gateway(Labels.from_json(json_string))
+        lab = Labels.from_json(json_string)
+        if lab is None:
+            # no gateway recorded: absent, like every other property (not an empty Gateway object)
+            return None
+        return Gateway(lab)
 
     def __str__(self):
         ar = list()
